@@ -726,13 +726,14 @@ def _validate_part(part):
         shutil.rmtree(d, ignore_errors=True)
 
 
-def validate(traces, chunk=5000):
+def validate(traces):
     """code -> spec: returns verdicts[i] = None | (l, clause), devs[i] = set of deviations used"""
     from concurrent.futures import ThreadPoolExecutor
     verdicts, devs = {}, {}
     states = trans = 0
+    par = max(1, min(6, int(os.environ.get('VERIF_PROCS', 6))))
+    chunk = min(7000, max(1500, -(-len(traces) // par)))       # one JVM per chunk, `par` side by side
     bases = list(range(0, len(traces), chunk))
-    par = max(1, min(6, int(os.environ.get('VERIF_PROCS', 6)), len(bases)))
     with ThreadPoolExecutor(par) as ex:
         results = list(ex.map(lambda b: _validate_part(traces[b:b + chunk]), bases))
     for base, r in zip(bases, results):
@@ -815,30 +816,44 @@ def run(chk):
         raise MachineryError('LinesWhole is vacuous: the design without the send lock does not violate it')
 
     stage('design')
+    groups = []
+
+    def flush(limit=0):
+        """judge what has been recorded so far (bounded memory in the thorough tier)"""
+        if groups and sum(len(g[1]) for g in groups) >= limit:
+            _judge(chk, groups)
+            del groups[:]
+
+    def batches(items, n=12000):
+        for i in range(0, len(items), n):
+            yield items[i:i + n]
+
     # 2 spec -> code: framing
     r, behs = emit_behaviours('Gen_Wire', 'Gen_Wire_framing_quick.cfg' if quick else 'Gen_Wire_framing_thorough.cfg',
                               maximal_only=False, timeout=900)
     chk.add_tlc(r)
-    res = pool_map(_replay_framing, behs)
-    traces, info = [], []
-    for beh, x in zip(behs, res):
-        cut = [len(s['chunk']) for s in beh['steps']]
-        chk.case(('F', beh['stream'], tuple(cut)), 'N' in beh['stream'])
-        if x['bad']:
-            chk.impl_traces += 1
-            chk.violation({'module': 'Wire', 'layer': 'framing', 'what': x['bad']['what']},
-                          {'kind': 'framing', 'stream': beh['stream'], 'cut': cut, **x['bad']})
-        for tr, raw, g in zip(x['traces'], x['raws'], ('g1', 'g2')):      # (g2 may be absent)
-            traces.append(tr)
-            info.append({'stream': beh['stream'], 'cut': cut, 'gamma': g, 'raw': raw})
-    stage('framing replay')
-    groups = [('framing', traces, lambda i, info=info: info[i])]
     chk.sample({'framing': {'stream': behs[len(behs) // 2]['stream'],
                             'cut': [len(s['chunk']) for s in behs[len(behs) // 2]['steps']]}})
+    for part in batches(behs):
+        traces, info = [], []
+        for beh, x in zip(part, pool_map(_replay_framing, part)):
+            cut = [len(s['chunk']) for s in beh['steps']]
+            chk.case(('F', beh['stream'], tuple(cut)), 'N' in beh['stream'])
+            if x['bad']:
+                chk.impl_traces += 1
+                chk.violation({'module': 'Wire', 'layer': 'framing', 'what': x['bad']['what']},
+                              {'kind': 'framing', 'stream': beh['stream'], 'cut': cut, **x['bad']})
+            for tr, raw, g in zip(x['traces'], x['raws'], ('g1', 'g2')):      # (g2 may be absent)
+                traces.append(tr)
+                info.append({'stream': beh['stream'], 'cut': cut, 'gamma': g, 'raw': raw})
+        groups.append(('framing', traces, lambda i, info=info: info[i]))
+        flush(30000)
+    del behs
+    stage('framing')
 
     # 3 spec -> code: line class sequences
     r, behs = emit_behaviours('Gen_Wire', 'Gen_Wire_classes_quick.cfg' if quick else 'Gen_Wire_classes_thorough.cfg',
-                              maximal_only=False, timeout=900)
+                              maximal_only=False, timeout=1800)
     chk.add_tlc(r)
     cat = r.printed('CAT')[0]
     for c, req in sorted(cat.items()):
@@ -850,35 +865,37 @@ def run(chk):
     if set(cat) != set(CLASSES):
         raise MachineryError('catalogue of Wire.tla and CLASSES differ: %s' % (set(cat) ^ set(CLASSES)))
     items = [([s['cls'] for s in b], chk.seed * 1000003 + i) for i, b in enumerate(behs)]
-    res = pool_map(_replay_classes, items)
-    traces, info = [], []
-    for (seq, seed), x in zip(items, res):
-        chk.case(('C',) + tuple(seq), True)
-        if x['bad']:
-            chk.impl_traces += 1
-            chk.violation({'module': 'Wire', 'layer': 'loop', 'what': x['bad']['what'], 'len': len(seq)},
-                          {'kind': 'classes', 'seq': seq, 'seed': seed, **x['bad']})
-        for tr, raw, sg in zip(x['traces'], x['raws'], x['segs']):
-            traces.append(tr)
-            info.append({'seq': seq, 'seed': seed, 'raw': raw, **sg})
-    stage('classes replay')
-    groups.append(('classes', traces, lambda i, info=info: info[i]))
-    chk.sample({'classes': items[len(items) // 2][0], 'trace': traces[len(traces) // 2][:6]})
+    del behs
+    for part in batches(items):
+        traces, info = [], []
+        for (seq, seed), x in zip(part, pool_map(_replay_classes, part)):
+            chk.case(('C',) + tuple(seq), True)
+            if x['bad']:
+                chk.impl_traces += 1
+                chk.violation({'module': 'Wire', 'layer': 'loop', 'what': x['bad']['what'], 'len': len(seq)},
+                              {'kind': 'classes', 'seq': seq, 'seed': seed, **x['bad']})
+            for tr, raw, sg in zip(x['traces'], x['raws'], x['segs']):
+                traces.append(tr)
+                info.append({'seq': seq, 'seed': seed, 'raw': raw, **sg})
+        chk.sample({'classes': part[len(part) // 2][0], 'trace': traces[len(traces) // 2][:6]})
+        groups.append(('classes', traces, lambda i, info=info: info[i]))
+        flush(30000)
+    stage('classes')
 
     # 4 code -> spec: fuzz
-    n = 1500 if quick else 60000
-    seeds = [chk.seed * 7919 + 17 * i + 1 for i in range(n)]
-    res = pool_map(_fuzz, seeds)
-    for sd in seeds:
-        chk.case(('Z', sd), True)
-    groups.append(('fuzz', [x['trace'] for x in res], lambda i, res=res: {
-        'seed': seeds[i], **{k: res[i][k] for k in ('raw', 'stream', 'hw', 'other', 'seg')}}))
-    chk.sample({'fuzz_stream': res[0]['stream'][:200], 'seg': res[0]['seg']})
+    seeds = [chk.seed * 7919 + 17 * i + 1 for i in range(1500 if quick else 60000)]
+    for part in batches(seeds, 30000):
+        res = pool_map(_fuzz, part)
+        for sd in part:
+            chk.case(('Z', sd), True)
+        groups.append(('fuzz', [x['trace'] for x in res], lambda i, res=res, part=part: {
+            'seed': part[i], **{k: res[i][k] for k in ('raw', 'stream', 'hw', 'other', 'seg')}}))
+        chk.sample({'fuzz_stream': res[0]['stream'][:200], 'seg': res[0]['seg']})
+        flush(30000)
 
     # 5 a second thread sends (LinesWhole) - real threads, sequentially in this process
     res = [_two_threads(chk.seed * 31 + i) for i in range(30 if quick else 300)]
-    inter = sum(1 for x in res if any(a['th'] != b['th'] for a, b in zip(x['raw'], x['raw'][1:])))
-    if not inter:
+    if not any(a['th'] != b['th'] for x in res for a, b in zip(x['raw'], x['raw'][1:])):
         raise MachineryError('two-thread scenario never switched threads')
     for x in res:
         chk.case(('T', x['seed']), True)
@@ -895,9 +912,28 @@ def run(chk):
         chk.case(('K', b[0]['a'], b[0]['s'], b[0]['d']), True)
     groups.append(('codec', [[{k: v for k, v in e.items() if k not in ('concrete', 'error')} for e in tr]
                              for tr in traces], lambda i, traces=traces: {'records': traces[i]}))
-    stage('fuzz threads codec')
-    _judge(chk, groups)
-    stage('judge')
+
+    # 7 the judge itself: corrupted copies of a good trace must be rejected with the right clause
+    w, _ = run_stream([b'read m:p\nping tok\n'])
+    good = w.events
+    outs = [i for i, e in enumerate(good) if e['ev'] == 'line_out']
+    swapped = list(good)
+    swapped[outs[0]], swapped[outs[1]] = good[outs[1]], good[outs[0]]
+    wrongspec = [dict(e, o=dict(e['o'], spec='m:s')) if i == outs[0] else e for i, e in enumerate(good)]
+    twice = good[:outs[1]] + [good[outs[1]]] + good[outs[1]:]
+    died = [dict(e, reason='raised') if e['ev'] == 'handler_end' else e for e in good]
+    selftest = [(good, None), (swapped, 'Belongs.action'), (wrongspec, 'Belongs.specifier'),
+                (good[:outs[1]] + good[outs[1] + 1:], 'OnePerLine.line_unanswered'),
+                (twice, 'OnePerLine.reply_without_request'), (died, 'HandlerSurvives')]
+    verdicts = validate([x[0] for x in selftest])[0]
+    for i, (_, want) in enumerate(selftest):
+        got = verdicts[i][1] if verdicts[i] else None
+        if got != want:
+            raise MachineryError(f'trace validation self-test {i}: expected {want}, TLC says {got}')
+    chk.notes['binding_selftest'] = 'one accepted trace + 5 corrupted copies rejected with the expected clause'
+    stage('fuzz threads codec selftest')
+    flush()
+    stage('final judge')
     chk.assumptions += [
         'lines with action "_" (help text), "update", "log" are asynchronous / informational lines, not replies',
         'for "*IDN?" and "help" a spurious specifier need not be echoed; "describe" may answer with specifier "."',
